@@ -9,6 +9,8 @@ Decided (clause 3 only: merge commands are never evaluated by the policy; struct
         location produced by the loop's iter.next(); every iteration that yields a location reaches
         call_rule (no bypass back to the loop head).
  R3 K2  backstop: VmPolicy::call_rule returns a Bug on Prior::Merge before touching facts or sink.
+ R4 K1  convergence map: Block::insert maintains both bounds of the block's max_cut range on every
+        insert (a spilled block is looked up through that range).
 Not decided: exactly-once and ancestor-first on arbitrary DAGs and spill paths (value-level:
 depends on convergence counts and skip-list contents)."""
 from rules.core import pat, rt
@@ -98,3 +100,24 @@ def run(F, rep, tier):
             ok = bool(bugs) and not touching
         rep.check(ok, "VmPolicy::call_rule|merge-is-bug", "K2 guarded-by",
                   "a Prior::Merge command returns a Bug before any open/evaluation/sink call", site=g.site())
+    block_summary_rule(F, rep)
+
+
+def block_summary_rule(F, rep):
+    """R4: a spilled block's [min, max] max_cut range covers every entry: both bounds are maintained on
+    every insert (the root index skips a block whose range excludes the location, so an entry outside
+    its block's recorded range is never found again and its fork point is braided twice)."""
+    ins = F.fn("aranya_runtime::client::convergence_map::Block::insert")
+    push = [c for c in ins.calls if c.name == "push"]
+    if len(push) != 1:
+        rep.anchor_missing("Block::insert: one push of the entry")
+        return
+    for fld in ("min_max_cut", "max_max_cut"):
+        stores = ins.field_stores(fld)
+        cmps = [c for c in ins.cmp_switches() if "field:%s" % fld in (ins.origins(c["a"], through_calls=()) | ins.origins(c["b"], through_calls=()))]
+        uncond = [s for s in stores if ins.dominates(s.bb, push[0].bb)]
+        guarded = [c for c in cmps if ins.dominates(c["bb"], push[0].bb) and any(ins.dominates(t, s.bb) for s in stores for t in (c.get("t"), c.get("f")) if t is not None)]
+        rep.check(bool(stores) and (bool(uncond) or bool(guarded)), "Block::insert|maintains-%s" % fld, "K1 must-pass-through",
+                  "every insert either stores `%s` or compares the entry against it (and stores on that comparison's edge) before the push" % fld,
+                  "Block::insert does not maintain `%s` on every path (its comparison is skipped on some path to the push): a block's recorded max_cut range "
+                  "can exclude one of its entries, the root index then never finds that convergence point after a spill" % fld, ins.site())
